@@ -343,11 +343,18 @@ def meta_comment_spec(name, meta, doc):
 # 3. the implementation: generated PSy layer + lowered PSyIR for every built-in
 # ------------------------------------------------------------------------------------------------
 API = "dynamo0.3"
-SETTINGS = [(dm, ann, omp) for dm in (False, True) for ann in (False, True) for omp in (False, True)]
+# omp: False = serial, True = OMP PARALLEL DO (DynamoOMPParallelLoopTrans), "region" = OMP DO inside an
+# OMP PARALLEL region (Dynamo0p3OMPLoopTrans + OMPParallelTrans), "reprod" = the same with
+# run-reproducible reductions ({"reprod": True}; reduction built-ins only)
+OMP_MODES = (False, True, "region")
+SETTINGS = [(dm, ann, omp) for dm in (False, True) for ann in (False, True) for omp in OMP_MODES]
+REPROD_SETTINGS = [(dm, ann, "reprod") for dm in (False, True) for ann in (False, True)]
+OMP_SUFFIX = {False: "", True: "_omp", "region": "_ompregion", "reprod": "_ompreprod"}
+OMP_CODE = {False: 0, True: 1, "region": 2, "reprod": 3}
 
 
 def setting_tag(dm, ann, omp):
-    return "dm%d_ann%d%s" % (dm, ann, "_omp" if omp else "")
+    return "dm%d_ann%d%s" % (dm, ann, OMP_SUFFIX[omp])
 
 
 def builtin_table():
@@ -501,7 +508,23 @@ def parse_invoke_text(name, sub, actual, args):
                 raise TranslateError("code: %s: %s assigned twice" % (name, m.group(1)))
             bounds[m.group(1)] = m.group(2).strip()
             continue
-        m = re.match(r"^do (\w+) = ([^,]+), ([^,]+?)(?:, (.+))?$", low)
+        m = re.match(r"^nthreads = omp_get_max_threads\(\)$", low)
+        if m:
+            events.append(("nthreads",))
+            continue
+        m = re.match(r"^(\w+) = omp_get_thread_num\(\)\s*\+\s*1$", low)
+        if m:
+            events.append(("thidx", m.group(1)))
+            continue
+        m = re.match(r"^allocate \((\w+)\((\d+),\s*nthreads\)\)$", low)
+        if m:
+            events.append(("alloc", m.group(1), int(m.group(2))))
+            continue
+        m = re.match(r"^deallocate \((\w+)\)$", low)
+        if m:
+            events.append(("dealloc", m.group(1)))
+            continue
+        m = re.match(r"^do (\w+)\s*=\s*([^,]+),\s*([^,]+?)(?:,\s*(.+))?$", low)
         if m:
             events.append(("do", m.group(1), m.group(2).strip(), m.group(3).strip(), (m.group(4) or "1").strip()))
             continue
@@ -528,7 +551,7 @@ def parse_invoke_text(name, sub, actual, args):
         if m:
             events.append(("random", m.group(1), m.group(2)))
             continue
-        if re.match(r"^[\w()]+ = ", low):
+        if re.match(r"^[\w(),]+ = ", low):
             events.append(("assign", low))
             continue
         raise TranslateError("code: %s: unrecognised generated statement %r" % (name, t))
@@ -536,13 +559,20 @@ def parse_invoke_text(name, sub, actual, args):
             "bounds": bounds, "events": events}
 
 
-def parse_omp(name, text, dovar, redvar):
-    low = text.lower()
-    if low == "end parallel do":
-        return None
-    if not low.startswith("parallel do"):
+def parse_omp(name, text, redvar):
+    """one `!$omp ...` line -> (kind, clauses) with kind in 'parallel do', 'parallel', 'do',
+    'end parallel do', 'end parallel', 'end do'; clauses: default_shared / private (list) /
+    schedule / reduction (bool: reduction(+:<the reduction variable>))"""
+    low = " ".join(text.lower().split())
+    for kind in ("end parallel do", "end parallel", "end do"):
+        if low == kind:
+            return kind, {}
+    for kind in ("parallel do", "parallel", "do"):
+        if low == kind or low.startswith(kind + " "):
+            rest = low[len(kind):].strip()
+            break
+    else:
         raise TranslateError("code: %s: unsupported OpenMP directive %r" % (name, text))
-    rest = low[len("parallel do"):].strip()
     clauses, depth, cur = [], 0, ""
     for ch in rest:
         if ch == "(":
@@ -556,7 +586,7 @@ def parse_omp(name, text, dovar, redvar):
             cur += ch
     if cur.strip():
         clauses.append(cur.strip())
-    d = {"default_shared": False, "private_df": False, "reduction": False, "schedule": ""}
+    d = {"default_shared": False, "private": [], "reduction": False, "schedule": ""}
     for c in clauses:
         m = re.fullmatch(r"(\w+)\((.*)\)", c)
         if not m:
@@ -565,8 +595,8 @@ def parse_omp(name, text, dovar, redvar):
         if k == "default":
             d["default_shared"] = (v == "shared")
         elif k == "private":
-            d["private_df"] = dovar in v.split(",")
-            if redvar is not None and redvar in v.split(","):
+            d["private"] = v.split(",")
+            if redvar is not None and redvar in d["private"]:
                 raise TranslateError("code: %s: reduction variable is private" % name)
         elif k == "schedule":
             d["schedule"] = v
@@ -574,12 +604,12 @@ def parse_omp(name, text, dovar, redvar):
             mm = re.fullmatch(r"\+:(\w+)", v)
             if not mm:
                 raise TranslateError("code: %s: unsupported reduction clause %r" % (name, c))
-            d["reduction"] = (redvar is not None and mm.group(1) == redvar)
-            if not d["reduction"]:
+            if redvar is None or mm.group(1) != redvar:
                 raise TranslateError("code: %s: reduction clause on %r, not on the reduction variable" % (name, mm.group(1)))
+            d["reduction"] = True
         else:
             raise TranslateError("code: %s: unsupported OpenMP clause %r" % (name, c))
-    return d
+    return kind, d
 
 
 def resolve_bound(name, txt, sk, actual, args):
@@ -610,9 +640,17 @@ class Resolver:
         self.name, self.sk, self.args = name, sk, args
         self.actual = [a.lower() for a in actual]
         self.red = None
+        self.local = None        # name of the thread-local array of a reproducible reduction
+        self.thidx = None        # name of the thread index variable
         w = [k for k, a in enumerate(args) if a[0] == "scl" and a[2]]
         if w:
             self.red = self.actual[w[0]]
+
+    def is_local_elem(self, t):
+        """l_red(1, th_idx): this thread's element of the reproducible-reduction array"""
+        return (t[0] == "call" and self.local is not None and t[1].lower() == self.local and not t[3]
+                and len(t[2]) == 2 and t[2][0] == ("lit", 1) and t[2][1][0] == "name"
+                and self.thidx is not None and t[2][1][1].lower() == self.thidx)
 
     def field_of_data(self, dname):
         p = self.sk["data_of"].get(dname)
@@ -646,6 +684,8 @@ class Resolver:
                 return ("scl", self.actual.index(n))
             raise TranslateError("code: %s: reference to %r which is not a scalar argument" % (self.name, n))
         if k == "call":
+            if self.is_local_elem(t):
+                return ("loc",)
             f, a, kw = t[1], t[2], t[3]
             if f in FN2 and len(a) == 2 and not kw:
                 return ("fn2", FN2[f], self.tree(a[0], lhs_data), self.tree(a[1], lhs_data))
@@ -659,53 +699,100 @@ class Resolver:
 
 
 def build_instance(name, sk, actual, args, dm, ann, omp):
-    """named skeleton -> positional instance dict (mirrors Model.instance) ; checks statement order"""
+    """named skeleton -> positional instance dict (mirrors Model.instance); checks statement order.
+    Returns (inst, resolver)."""
     ev = list(sk["events"])
     R = Resolver(name, sk, actual, args)
     inst = {"name": name, "dm": dm, "ann": ann, "args": args, "zero": False, "omp": None, "gsum": False}
-    i = 0
+    pos = [0]
 
     def peek():
-        return ev[i] if i < len(ev) else ("eof",)
+        return ev[pos[0]] if pos[0] < len(ev) else ("eof",)
+
+    def take(kind=None):
+        e = peek()
+        if kind is not None and e[0] != kind:
+            raise TranslateError("code: %s: expected %s, found %r" % (name, kind, e))
+        pos[0] += 1
+        return e
+
+    def omp_line():
+        e = take("omp")
+        return parse_omp(name, e[1], R.red)
+    reprod = None
+    if peek()[0] == "nthreads":
+        take()
+        reprod = {"zeroed": False, "thidx_set": False, "thidx_private": False, "final_sum": False}
     if peek()[0] == "zero":
         if peek()[1] != R.red:
             raise TranslateError("code: %s: %r zeroed, which is not the reduction argument" % (name, peek()[1]))
         inst["zero"] = True
-        i += 1
-    omp_open = False
+        take()
+    if peek()[0] == "alloc":
+        if reprod is None or R.red is None:
+            raise TranslateError("code: %s: local reduction array without nthreads / reduction argument" % name)
+        _, lname, rows = take()
+        if rows < 1:
+            raise TranslateError("code: %s: local reduction array has %d rows" % (name, rows))
+        R.local = lname
+        if peek() == ("zero", lname):
+            take()
+            reprod["zeroed"] = True
+    elif reprod is not None:
+        raise TranslateError("code: %s: nthreads queried but no local reduction array allocated" % name)
+    form, clauses = None, None
     if peek()[0] == "omp":
-        pending_omp = peek()[1]
-        omp_open = True
-        i += 1
-    if peek()[0] != "do":
-        raise TranslateError("code: %s: expected the DoF loop, found %r" % (name, peek()))
-    _, dovar, lo, hi, step = peek()
-    i += 1
+        kind, cl = omp_line()
+        if kind == "parallel do":
+            form, clauses = "pardo", cl
+        elif kind == "parallel":
+            if peek()[0] == "thidx":
+                R.thidx = take()[1]
+                if reprod is not None:
+                    reprod["thidx_set"] = True
+            kind2, cl2 = omp_line()
+            if kind2 != "do":
+                raise TranslateError("code: %s: expected `!$omp do` inside the parallel region, found %r" % (name, kind2))
+            if cl2["private"] or cl2["default_shared"]:
+                raise TranslateError("code: %s: data-sharing clauses on `!$omp do`" % name)
+            form = "reprod" if reprod is not None else "region"
+            clauses = {"default_shared": cl["default_shared"], "private": cl["private"],
+                       "schedule": cl2["schedule"] or cl["schedule"], "reduction": cl2["reduction"] or cl["reduction"]}
+        else:
+            raise TranslateError("code: %s: unexpected OpenMP directive %r before the loop" % (name, kind))
+    elif reprod is not None:
+        raise TranslateError("code: %s: reproducible-reduction set-up without an OpenMP region" % name)
+    _, dovar, lo, hi, step = take("do")
     if dovar != "df":
         raise TranslateError("code: %s: DoF loop variable is %r" % (name, dovar))
     if step != "1":
         raise TranslateError("code: %s: DoF loop step is %r" % (name, step))
-    if omp_open:
-        inst["omp"] = parse_omp(name, pending_omp, dovar, R.red)
-        if inst["omp"] is None:
-            raise TranslateError("code: %s: stray OpenMP end directive" % name)
+    if form is not None:
+        inst["omp"] = {"form": form, "default_shared": clauses["default_shared"], "private_df": dovar in clauses["private"],
+                       "reduction": clauses["reduction"], "schedule": clauses["schedule"]}
+        if reprod is not None:
+            reprod["thidx_private"] = R.thidx is not None and R.thidx in clauses["private"]
+            inst["omp"]["reprod"] = reprod
     for side, var in (("lo", lo), ("hi", hi)):
         if var not in sk["bounds"]:
             raise TranslateError("code: %s: loop bound variable %r is never assigned" % (name, var))
         inst[side] = resolve_bound(name, sk["bounds"][var], sk, actual, args)
     if len(sk["bounds"]) != 2:
         raise TranslateError("code: %s: unexpected bound variables %s" % (name, sorted(sk["bounds"])))
-    body = peek()
-    i += 1
+    body = take()
     if body[0] == "assign":
         lhs, rhs = fexpr.parse_assignment(body[1], index_names=(dovar,))
         if lhs[0] == "elem":
             out = R.field_of_data(lhs[1].lower())
             inst["kern"] = ("assign", out, R.tree(rhs, lhs[1].lower()))
-        else:
+        elif lhs[0] == "name":
             if lhs[1].lower() != R.red:
                 raise TranslateError("code: %s: assignment to %r inside the DoF loop" % (name, lhs[1]))
             inst["kern"] = ("reduce", R.tree(rhs, None))
+        elif R.is_local_elem(lhs):
+            inst["kern"] = ("reduce_local", R.tree(rhs, None))
+        else:
+            raise TranslateError("code: %s: assignment to %r inside the DoF loop" % (name, lhs))
         inst["body_text"] = body[1]
     elif body[0] == "random":
         if body[2] != dovar:
@@ -716,26 +803,43 @@ def build_instance(name, sk, actual, args, dm, ann, omp):
         raise TranslateError("code: %s: unexpected loop body %r" % (name, body))
     if peek()[0] != "enddo":
         raise TranslateError("code: %s: more than one statement in the DoF loop: %r" % (name, peek()))
-    i += 1
-    if omp_open:
-        if peek()[0] != "omp" or parse_omp(name, peek()[1], dovar, R.red) is not None:
+    take()
+    if form == "pardo":
+        if omp_line()[0] != "end parallel do":
+            raise TranslateError("code: %s: OpenMP parallel do not closed after the loop" % name)
+    elif form in ("region", "reprod"):
+        if omp_line()[0] != "end do" or omp_line()[0] != "end parallel":
             raise TranslateError("code: %s: OpenMP region not closed after the loop" % name)
-        i += 1
+    if reprod is not None:
+        # DO th_idx=1,nthreads / red = red + l_red(1,th_idx) / END DO / DEALLOCATE (l_red)
+        if peek()[0] == "do":
+            _, tv, tlo, thi, tstep = take()
+            st = take()
+            ok = (tv == R.thidx and tlo == "1" and thi == "nthreads" and tstep == "1" and st[0] == "assign")
+            if ok:
+                l2, r2 = fexpr.parse_assignment(st[1], index_names=())
+                ok = (l2 == ("name", R.red) or (l2[0] == "name" and l2[1].lower() == R.red)) and \
+                    R.tree(r2, None) == ("bin", "OAdd", ("red",), ("loc",))
+            take("enddo")
+            reprod["final_sum"] = bool(ok)
+        if peek()[0] == "dealloc":
+            if peek()[1] != R.local:
+                raise TranslateError("code: %s: deallocation of %r" % (name, peek()[1]))
+            take()
     if peek()[0] == "gsum_set":
-        if peek()[1] != R.red or i + 1 >= len(ev) or ev[i + 1] != ("gsum_get", R.red):
+        if peek()[1] != R.red or pos[0] + 1 >= len(ev) or ev[pos[0] + 1] != ("gsum_get", R.red):
             raise TranslateError("code: %s: malformed global sum" % name)
         inst["gsum"] = True
-        i += 2
+        pos[0] += 2
     while peek()[0] == "halo":
-        h = peek()
+        h = take()
         # halo bookkeeping only concerns the written field of this invoke
         a = sk["proxy_of"].get(h[1])
         if a is None or a not in R.actual or not args[R.actual.index(a)][2]:
             raise TranslateError("code: %s: halo call on %r which is not the written field" % (name, h[1]))
-        i += 1
     if peek()[0] != "eof":
         raise TranslateError("code: %s: unexpected statement after the loop: %r" % (name, peek()))
-    return inst
+    return inst, R
 
 
 # ---- route 2: the lowered PSyIR
@@ -746,6 +850,9 @@ def psyir_named_tree(node):
             return ("lit", fexpr.num_value(node.value))
         except (ParseError, ValueError):
             raise TranslateError("code: literal %r outside the integer-valued domain" % node.value)
+    if isinstance(node, N.ArrayReference) and len(node.indices) == 2:
+        # element of a reproducible-reduction array: same shape as the text route gives
+        return ("call", node.name.upper(), [psyir_named_tree(i) for i in node.indices], {})
     if isinstance(node, N.ArrayReference):
         if len(node.indices) != 1 or not isinstance(node.indices[0], N.Reference) or node.indices[0].name != "df" \
                 or isinstance(node.indices[0], N.ArrayReference):
@@ -797,6 +904,8 @@ def lowered_kernel(name, schedule, R, sk):
             kern = ("assign", R.field_of_data(lhs[1].lower()), R.tree(psyir_named_tree(b.rhs), lhs[1].lower()))
         elif lhs[0] == "name" and lhs[1].lower() == R.red:
             kern = ("reduce", R.tree(psyir_named_tree(b.rhs), None))
+        elif R.is_local_elem(lhs):
+            kern = ("reduce_local", R.tree(psyir_named_tree(b.rhs), None))
         else:
             raise TranslateError("code: %s: lowered assignment to %r" % (name, lhs))
     elif isinstance(b, N.IntrinsicCall) and b.intrinsic.name == "RANDOM_NUMBER":
@@ -816,7 +925,7 @@ def translate_chunk(job):
     from psyclone.parse.algorithm import parse
     from psyclone.psyGen import PSyFactory
     from psyclone.psyir.nodes import Loop
-    from psyclone.transformations import DynamoOMPParallelLoopTrans
+    from psyclone.transformations import DynamoOMPParallelLoopTrans, Dynamo0p3OMPLoopTrans, OMPParallelTrans
     from psyclone.errors import GenerationError
     from psyclone.psyir.transformations import TransformationError
     variant = make_variant(variant_spec)
@@ -839,7 +948,11 @@ def translate_chunk(job):
                     if len(loops) != 1:
                         raise TranslateError("code: %s: %d loops before transformation" % (name, len(loops)))
                     try:
-                        DynamoOMPParallelLoopTrans().apply(loops[0])
+                        if omp is True:
+                            DynamoOMPParallelLoopTrans().apply(loops[0])
+                        else:
+                            Dynamo0p3OMPLoopTrans().apply(loops[0], {"reprod": omp == "reprod"})
+                            OMPParallelTrans().apply(loops[0].parent.parent)
                     except TransformationError as err:
                         rejected[name] = str(err.value)[:200]
             try:
@@ -857,11 +970,13 @@ def translate_chunk(job):
                 if sub is None:
                     raise TranslateError("code: no generated subroutine for %s" % name)
                 sk = parse_invoke_text(name, sub, actual[name], args)
-                inst = build_instance(name, sk, actual[name], args, dm, ann, omp)
+                inst, R = build_instance(name, sk, actual[name], args, dm, ann, omp)
                 if omp and inst["omp"] is None:
                     raise TranslateError("code: %s: OpenMP transformation applied but no directive generated" % name)
+                want = {True: "pardo", "region": "region", "reprod": "reprod"}.get(omp)
+                if omp and inst["omp"]["form"] != want:
+                    raise TranslateError("code: %s: transformation %r gave OpenMP form %r" % (name, omp, inst["omp"]["form"]))
                 # route 2: lowered PSyIR must serialise to the same kernel and the same bound variables
-                R = Resolver(name, sk, actual[name], args)
                 kern2, bvars = lowered_kernel(name, invs["invoke_bi_" + name.lower()].schedule, R, sk)
                 if kern2 != inst["kern"]:
                     raise TranslateError("code: %s (%s): lowered PSyIR %r differs from the generated text %r"
@@ -908,6 +1023,11 @@ def translate_code(scratch, names=None, settings=SETTINGS, variant=None, log=Non
     size = max(1, -(-len(todo) // nchunks))
     jobs = [(todo[i:i + size], str(scratch / ("c20_alg_%d.f90" % (i // size))), list(settings), variant)
             for i in range(0, len(todo), size)]
+    if settings is SETTINGS:
+        # reproducible OpenMP reductions: only meaningful for the built-ins that write a scalar
+        red = [t for t in todo if any(k == "scl" and w for k, _, w in t[2])]
+        if red:
+            jobs.append((red, str(scratch / "c20_alg_reprod.f90"), list(REPROD_SETTINGS), variant))
     results = [_worker(j) for j in jobs]
     instances, psy_texts = {}, {}
     for status, payload in results:
@@ -933,6 +1053,8 @@ def coq_bexpr(t):
         return "(XScl %d)" % t[1]
     if k == "red":
         return "XRed"
+    if k == "loc":
+        return "XLoc"
     if k == "lit":
         return "(XLit (%d))" % t[1]
     if k == "neg":
@@ -967,6 +1089,8 @@ def coq_kern(k):
         return "(KAssign %d %s)" % (k[1], coq_bexpr(k[2]))
     if k[0] == "reduce":
         return "(KReduce %s)" % coq_bexpr(k[1])
+    if k[0] == "reduce_local":
+        return "(KReduceLocal %s)" % coq_bexpr(k[1])
     if k[0] == "random":
         return "(KRandom %d)" % k[1]
     raise TranslateError("emit: bad kernel %r" % (k,))
@@ -980,6 +1104,15 @@ def coq_bound(b):
 
 def cb(x):
     return "true" if x else "false"
+
+
+def coq_form(o):
+    if o["form"] == "pardo":
+        return "OParDo"
+    if o["form"] == "region":
+        return "ORegion"
+    r = o["reprod"]
+    return "(OReprod (mkReprod %s %s %s %s))" % (cb(r["zeroed"]), cb(r["thidx_set"]), cb(r["thidx_private"]), cb(r["final_sum"]))
 
 
 HEADER = ("(* GENERATED by props/C20/translate.py from the working tree of PSyclone -- do not edit *)\n"
@@ -1011,9 +1144,14 @@ def kern_key(name, instances):
     for (n, dm, ann, omp), inst in instances.items():
         if n == name and "rejected" not in inst and inst["kern"] not in ks:
             ks.append(inst["kern"])
-    if len(ks) == 1:
-        return {ks[0]: "kern_%s" % cid(name)}
-    return {k: "kern_%s_v%d" % (cid(name), i) for i, k in enumerate(ks)}
+    out, n = {}, 0
+    plain = [k for k in ks if k[0] != "reduce_local"]
+    local = [k for k in ks if k[0] == "reduce_local"]
+    for i, k in enumerate(plain):
+        out[k] = "kern_%s" % cid(name) if len(plain) == 1 else "kern_%s_v%d" % (cid(name), i)
+    for i, k in enumerate(local):
+        out[k] = "kern_%s_reprod" % cid(name) if len(local) == 1 else "kern_%s_reprod_v%d" % (cid(name), i)
+    return out
 
 
 def emit_code(table, instances):
@@ -1030,12 +1168,12 @@ def emit_code(table, instances):
         out.append('Definition nm_%s : string := "%s".' % (cid(name), name))
         out.append("Definition args_%s : list akind := %s." % (cid(name), coq_args(args)))
     out.append("\nDefinition builtin_names : list string := [%s].\n" % "; ".join("nm_%s" % cid(n) for n, _, _ in table))
-    for (name, dm, ann, omp), inst in sorted(instances.items(), key=lambda kv: ([n for n, _, _ in table].index(kv[0][0]), kv[0][1:])):
+    for (name, dm, ann, omp), inst in sorted(instances.items(), key=lambda kv: ([n for n, _, _ in table].index(kv[0][0]), kv[0][1], kv[0][2], OMP_CODE[kv[0][3]])):
         if "rejected" in inst:
             out.append("(* %s %s: DynamoOMPParallelLoopTrans refused: %s *)" % (name, setting_tag(dm, ann, omp), inst["rejected"].replace("*)", "* )").replace("(*", "( *")))
             continue
         o = inst["omp"]
-        omp_t = "None" if o is None else '(Some (mkOmp %s %s %s sched_%s))' % (cb(o["default_shared"]), cb(o["private_df"]), cb(o["reduction"]), cid(o["schedule"] or "none"))
+        omp_t = "None" if o is None else '(Some (mkOmp %s %s %s %s sched_%s))' % (coq_form(o), cb(o["default_shared"]), cb(o["private_df"]), cb(o["reduction"]), cid(o["schedule"] or "none"))
         out.append("(* %s *)" % inst["body_text"].replace("*)", "* )").replace("(*", "( *"))
         if inst["args"] != dict((n, a) for n, _, a in table)[name]:
             raise TranslateError("emit: argument kinds of %s changed between settings" % name)
@@ -1079,7 +1217,7 @@ def emit_obligations(table, instances, doc, meta, kerns):
         c = cid(name)
         if name not in docnames:
             continue
-        for dm, ann, omp in SETTINGS:
+        for dm, ann, omp in SETTINGS + REPROD_SETTINGS:
             inst = instances.get((name, dm, ann, omp))
             if inst is None or "rejected" in inst:
                 continue
@@ -1109,12 +1247,28 @@ def emit_obligations(table, instances, doc, meta, kerns):
         out.append("  apply Forall_cons; [exact tbl_%s_ok|]." % c)
     out.append("  apply Forall_nil.\nQed.\n")
     index.append(("table_ok", "table", None, None))
-    lemma("serial_coverage", "all_settings_covered table builtin_names = true", "vm_compute. reflexivity.", "coverage", None)
-    omp_names = [n for n, _, _ in table if all("rejected" not in instances.get((n, dm, ann, True), {"rejected": 1})
-                                                for dm in (False, True) for ann in (False, True))]
-    out.append("Definition omp_builtin_names : list string := [%s]." % "; ".join('"%s"' % n for n in omp_names))
-    lemma("omp_coverage", "omp_settings_covered table omp_builtin_names = true", "vm_compute. reflexivity.", "coverage", None)
-    return "\n".join(out) + "\n", index, omp_names
+    lemma("serial_coverage", "form_covered table 0 builtin_names = true", "vm_compute. reflexivity.", "coverage", None)
+
+    def accepted(mode, pool):
+        return [n for n in pool if all("rejected" not in instances.get((n, dm, ann, mode), {"rejected": 1})
+                                       for dm in (False, True) for ann in (False, True))]
+    allnames = [n for n, _, _ in table]
+    omp_names = accepted(True, allnames)
+    region_names = accepted("region", allnames)
+    reduction_names = [n for n, _, a in table if any(k == "scl" and w for k, _, w in a)]
+    reprod_names = accepted("reprod", reduction_names)
+    for ident, names in (("omp_builtin_names", omp_names), ("region_builtin_names", region_names),
+                         ("reduction_builtin_names", reduction_names), ("reprod_builtin_names", reprod_names)):
+        out.append("Definition %s : list string := [%s]." % (ident, "; ".join('"%s"' % n for n in names)))
+    lemma("omp_coverage", "form_covered table 1 omp_builtin_names = true", "vm_compute. reflexivity.", "coverage", None)
+    lemma("region_coverage", "form_covered table 2 region_builtin_names = true", "vm_compute. reflexivity.", "coverage", None)
+    lemma("reprod_coverage", "form_covered table 3 reprod_builtin_names = true", "vm_compute. reflexivity.", "coverage", None)
+    # every built-in whose documented definition is a SUM is among the reduction built-ins translated with reprod
+    lemma("reductions_are_the_sum_builtins",
+          "forallb (fun p => negb (is_reduction_spec (d_spec (snd p))) || existsb (String.eqb (i_name (fst p))) reduction_builtin_names) table = true",
+          "vm_compute. reflexivity.", "coverage", None)
+    return "\n".join(out) + "\n", index, {"omp": omp_names, "region": region_names, "reprod": reprod_names,
+                                          "reductions": reduction_names}
 
 
 def run_translators(scratch, log=None):
